@@ -10,6 +10,9 @@ import Hive.Model.Reactive
   `current || new`.
 * `setObj`: `reactive.Set` (`set_impl.go`, after the `Replace` fix): `Apply` (also behind
   `Add/AddAll/Delete/DeleteAll`), `Compute`, `Replace`; the note is the applied mutation.
+  A `DerivedSet` is a `setObj` with one more kind of writer: `inheritMutations` runs the writer program
+  under the same (embedded) `set.mutex`, and its update is a `SetOp.compute` (the mutation is decided
+  by the occurrence counts, then `value.Apply`; callbacks are always notified).
 -/
 namespace Hive.Reactive
 
